@@ -581,3 +581,107 @@ def unit_integer_init():
                                 "create_range_from_length is used through its contract (bounded: fields.length-range sweep): a Range or RangeValueError",
                                 "Range.validate is used through its verified contract as the predicate length_accepts; str(int) is the decimal text with a leading '-' for negatives (A-STR)"]}
     return ProofUnit("fields.IntegerFieldFormat.__init__", "IntegerFieldFormat.__init__: which range becomes valid_range (rule / derived from length / 32 bit) and the length-vs-rule consistency loop", ["C02", "C09", "C10"], make, None)
+
+
+_RA = None
+def _replace_all(s, a, b):
+    """SMT-LIB str.replace_all(s, a, b) (not exposed by z3py: built once through the SMT-LIB parser, then instantiated)"""
+    global _RA
+    if _RA is None:
+        f = z3.parse_smt2_string('(declare-const x String)(declare-const a String)(declare-const b String)(assert (= (str.replace_all x a b) x))')
+        _RA = f[0].arg(0)
+    t = _RA
+    return z3.substitute(t, (t.arg(0), s), (t.arg(1), z3.StringVal(a)), (t.arg(2), z3.StringVal(b)))
+
+
+class DateTimeInitOracle(Oracle):
+    """native twin of the DateTimeFieldFormat.__init__ contract: decides what the replace_all chain leaves undecided"""
+    bound = "all rules of up to 3 pieces over DD MM YYYY YY hh mm ss % . : Y D h"
+    quick_cases = 3000; thorough_cases = 40000
+    PIECES = ("DD", "MM", "YYYY", "YY", "hh", "mm", "ss", "%", ".", ":", "Y", "D", "h")
+    def cases(self, ctx):
+        for n in (1, 2, 3, 4) if ctx.thorough else (1, 2, 3):
+            for c in itertools.product(self.PIECES, repeat=n): yield "".join(c)
+    def check(self, rule):
+        from cutplace import data, fields
+        f = fields.DateTimeFieldFormat("d", False, "", rule, data.DataFormat(data.FORMAT_DELIMITED))
+        exp = rule
+        for a, b in (("%", "%%"), ("DD", "%d"), ("MM", "%m"), ("YYYY", "%Y"), ("YY", "%y"), ("hh", "%H"), ("mm", "%M"), ("ss", "%S")): exp = exp.replace(a, b)
+        ht = any(d in exp for d in ("%H", "%M", "%S")); hd = any(d in exp for d in ("%d", "%m", "%y", "%Y"))
+        got = (f.strptime_format, f._has_time, f._has_date)
+        if got != (exp, ht, hd): return {"expected": repr((exp, ht, hd)), "observed": repr(got)}
+    def describe(self, rule): return {"DateTime rule": rule}
+
+
+def unit_datetime_init():
+    PAIRS = (("%", "%%"), ("DD", "%d"), ("MM", "%m"), ("YYYY", "%Y"), ("YY", "%y"), ("hh", "%H"), ("mm", "%M"), ("ss", "%S"))
+    def setup(ex, st):
+        rule = fresh(STR, "rule")[0]; ae = fresh(BOOL, "allowed_empty")[0]
+        self = _field_init_env(ex, st, "DateTimeFieldFormat", rule, ae)
+        st.frames[-1].env["empty_value"] = None
+        st.ghost.update({"rule": rule, "this": self})
+    def m_range(ex, st, info, args, kw):
+        r = Ref("Range"); st.heap[r.oid] = {"_items": None}; yield st, r
+    def m_replace(ex, st, recv, args, kw):
+        # Python's str.replace(a, b) with a non-empty literal a is SMT-LIB str.replace_all (leftmost, non-overlapping)
+        if not (isinstance(args[0], str) and args[0] and isinstance(args[1], str)): raise Unsupported("replace with a non-literal pattern")
+        yield st, Sym(STR, _replace_all(lift(recv).z, args[0], args[1]))
+    def expected(ex, st):
+        z = G(st, "rule")
+        for a, b in PAIRS: z = _replace_all(z, a, b)
+        return z
+    def c_format(ex, st):
+        o = st.heap[st.ghost["this"].oid]
+        return Sym(BOOL, z3.And(lift(o["strptime_format"]).z == expected(ex, st), z3.BoolVal(o["human_readable_format"] is st.ghost["rule"])))
+    def c_flags(ex, st):
+        o = st.heap[st.ghost["this"].oid]; f = lift(o["strptime_format"]).z
+        return Sym(BOOL, z3.And(lift(o["_has_time"]).z == z3.Or(*[z3.Contains(f, d) for d in ("%H", "%M", "%S")]), lift(o["_has_date"]).z == z3.Or(*[z3.Contains(f, d) for d in ("%d", "%m", "%y", "%Y")])))
+    def make(ctx):
+        c = Contract("fields.DateTimeFieldFormat.__init__", setup,
+                returns=[Clause(c_format, "strptime-format-is-the-rule-with-%-doubled-then-DD-MM-YYYY-YY-hh-mm-ss-replaced-by-their-directives-in-that-order", props=["C02"]),
+                         Clause(c_flags, "has-time-/-has-date-iff-the-format-contains-a-time-/-date-directive", props=["C02", "C16"])],
+                raises={}, expect=["return"], raises_only_props=["C02", "C10"])
+        return {"contract": c, "callees": {"class:Range": m_range, "strmethod:replace": m_replace},
+                "assumptions": ["A-STR: str.replace(a, b) with non-empty a is SMT-LIB str.replace_all(s, a, b)", "the super().__init__ call is executed as real code with Range(length) abstracted (verified in contracts/ranges_init.py)"]}
+    return ProofUnit("fields.DateTimeFieldFormat.__init__", "DateTimeFieldFormat.__init__: human readable layout -> strptime format (ordered replacement chain), has_time / has_date flags", ["C02", "C16", "C10"], make, DateTimeInitOracle)
+
+
+def unit_decimal_init():
+    def setup(ex, st):
+        rule = fresh(STR, "rule")[0]; ae = fresh(BOOL, "allowed_empty")[0]; lt = fresh(STR, "length_text")[0]
+        self = _field_init_env(ex, st, "DecimalFieldFormat", rule, ae)
+        env = st.frames[-1].env; del env["length"]; env.update({"length_text": lt, "empty_value": None})
+        df = env["data_format"]; ds = fresh(STR, "dsep")[0]; ts = fresh(STR, "tsep")[0]
+        st.heap[df.oid].update({"_decimal_separator": ds, "_thousands_separator": ts})
+        st.ghost.update({"rule": rule, "this": self, "lt": lt, "fmt": st.heap[df.oid]["_format"], "ds": ds, "ts": ts, "range_failed": False, "dr": None, "lr": None, "default_text": None})
+    def m_range(ex, st, info, args, kw):
+        if True:
+            sb = st.copy(); sb.ghost["range_failed"] = True; yield from raise_new(ex, sb, "InterfaceError")
+        r = Ref("Range"); st.heap[r.oid] = {"_items": None, "_description": args[0]}
+        if args[0] is st.ghost["lt"]: st.ghost["lr"] = r
+        yield st, r
+    def m_drange(ex, st, info, args, kw):
+        if True:
+            sb = st.copy(); sb.ghost["range_failed"] = True; yield from raise_new(ex, sb, "InterfaceError")
+        r = Ref("DecimalRange"); st.heap[r.oid] = {"_items": None, "_precision": fresh(INT, "precision")[0], "_scale": fresh(INT, "scale")[0]}
+        if args[0] is st.ghost["rule"]: st.ghost["dr"] = r; st.ghost["default_text"] = args[1] if len(args) > 1 else kw.get("default")
+        yield st, r
+    def c_sep(ex, st):
+        o = st.heap[st.ghost["this"].oid]; flat = z3.Or(G(st, "fmt") == "delimited", G(st, "fmt") == "fixed")
+        return Sym(BOOL, z3.And(lift(o["decimal_separator"]).z == z3.If(flat, G(st, "ds"), z3.StringVal(".")), lift(o["thousands_separator"]).z == z3.If(flat, G(st, "ts"), z3.StringVal(""))))
+    def c_ranges(ex, st):
+        g = st.ghost; o = st.heap[g["this"].oid]; dr = g["dr"]
+        if dr is None or o.get("valid_range") is not dr or o.get("_length") is not g["lr"] or g["lr"] is None: return Sym(BOOL, z3.BoolVal(False))
+        from cutplace import ranges as _r
+        if g["default_text"] != _r.DEFAULT_DECIMAL_RANGE_TEXT: return Sym(BOOL, z3.BoolVal(False))
+        return Sym(BOOL, z3.And(lift(o["_precision"]).z == lift(st.heap[dr.oid]["_precision"]).z, lift(o["_scale"]).z == lift(st.heap[dr.oid]["_scale"]).z))
+    def make(ctx):
+        c = Contract("fields.DecimalFieldFormat.__init__", setup,
+                returns=[Clause(c_sep, "separators-are-the-data-format's-for-delimited-and-fixed-data-and-'.'-/-none-for-spreadsheet-formats", props=["C02", "C16"]),
+                         Clause(c_ranges, "valid-range-is-DecimalRange(rule,-default-range)-length-is-Range(length_text)-precision-and-scale-are-the-range's", props=["C02", "C19"])],
+                raises={"InterfaceError": [Clause("range_failed", "refused-only-for-a-broken-rule-or-length-text", props=["C02", "C09"])]},
+                expect=["return", "InterfaceError"], raises_only_props=["C02", "C10"])
+        return {"contract": c, "callees": {"class:Range": m_range, "class:DecimalRange": m_drange},
+                "assumptions": ["Range(text) / DecimalRange(text, default) are used through their verified contracts (contracts/ranges_init.py, ranges_dinit.py)",
+                                "DEFAULT_DECIMAL_RANGE_TEXT is the module constant of cutplace.ranges (read natively)"]}
+    return ProofUnit("fields.DecimalFieldFormat.__init__", "DecimalFieldFormat.__init__: separators by data format, valid range from the rule (or the default decimal range), precision / scale", ["C02", "C16", "C19", "C10"], make, None)
